@@ -38,7 +38,7 @@ ASSUMPTIONS = [
 ]
 SETTINGS: Dict[str, Dict[str, Any]] = {
     "quick": {"cases": 1200, "cli_cases": 32, "budget_s": 60, "minimums": {"rows_checked": 8000, "fields_checked": 80000, "nontrivial": 250, "artificial_fee_rows": 150, "cli_pairs": 16, "sheets_with_a_row_repeated_verbatim": 120}},
-    "thorough": {"cases": 30000, "cli_cases": 300, "budget_s": 420, "minimums": {"rows_checked": 80000, "fields_checked": 800000, "nontrivial": 3000, "artificial_fee_rows": 1500, "cli_pairs": 100, "sheets_with_a_row_repeated_verbatim": 1000}},
+    "thorough": {"cases": 30000, "cli_cases": 300, "budget_s": 420, "minimums": {"rows_checked": 48000, "fields_checked": 480000, "nontrivial": 1800, "artificial_fee_rows": 900, "cli_pairs": 60, "sheets_with_a_row_repeated_verbatim": 600}},
 }
 OPTIONAL_KEYS = {
     "IN": {"cfee": "crypto_fee", "fin_nf": "fiat_in_no_fee", "fin_wf": "fiat_in_with_fee", "ffee": "fiat_fee", "uid": "unique_id", "notes": "notes"},
